@@ -436,11 +436,11 @@ def expected (o : List (List Char × List Char)) : List (List Char × KVal) :=
 
 /-! ## Finding classes of the round trip (used by the oracle and the theorems) -/
 
-/-- strictly increasing keys: the entries of a `BTreeMap` in iteration order. -/
+/-- strictly increasing keys (every key below all later ones): the entries of a `BTreeMap` in
+    iteration order. -/
 def keysSorted : List (List Char × List Char) → Bool
   | [] => true
-  | [_] => true
-  | a :: b :: r => strLt a.1 b.1 && keysSorted (b :: r)
+  | a :: r => r.all (fun b => strLt a.1 b.1) && keysSorted r
 
 inductive Class where
   | emptyObject      -- `{}` encodes to "" which does not parse
